@@ -358,4 +358,129 @@ theorem measure_step_le {s s' : QState R} {t : QStep} (h : step s t = some s') (
   | endRun j => exact Nat.le_of_eq (measure_step h ht (by simp))
   | release j => exact Nat.le_of_eq (measure_step h ht (by simp))
 
+/-! ### facts used by the property theorems and by the log checker's soundness -/
+
+variable {q0 : List R} {pop workers : Nat}
+
+theorem heldAll_nodup {s : QState R} (h : Reach q0 pop workers s) (hq : q0.Nodup) :
+    (heldAll s).Nodup :=
+  (List.nodup_append.1 ((reach_inv h).cons.nodup_iff.2 hq)).2.1
+
+
+/-- a job is in every phase through an index -/
+theorem exists_index {l : List (QJob R)} {x : QJob R} (h : x ∈ l) : ∃ j : Nat, l[j]? = some x := by
+  obtain ⟨j, hj, hjx⟩ := List.mem_iff_getElem.1 h
+  exact ⟨j, by simp [hj, hjx]⟩
+
+
+theorem reach_steps {s : QState R} (h : Reach q0 pop workers s) :
+    ∀ (ts : List QStep) {s' : QState R}, steps s ts = some s' → Reach q0 pop workers s' := by
+  intro ts
+  induction ts generalizing s with
+  | nil => intro s' hs; simp only [steps, Option.some.injEq] at hs; exact hs ▸ h
+  | cons t ts ih =>
+    intro s' hs
+    simp only [steps] at hs
+    cases ht : step s t with
+    | none => simp [ht] at hs
+    | some s1 =>
+      simp only [ht] at hs
+      exact ih (.step t h ht) hs
+
+
+/-- job `j` exists and its task is done -/
+def EndedAt (s : QState R) (j : Nat) : Prop := ∃ x, s.jobs[j]? = some x ∧ isEnded x.phase = true
+
+theorem cancel_effect {s s' : QState R} {k : Nat} (h : step s (.cancel k) = some s') :
+    s'.jobs.length = s.jobs.length ∧ EndedAt s' k ∧ ∀ j, j ≠ k → s'.jobs[j]? = s.jobs[j]? := by
+  cases step_spec h with
+  | cancel _ x hx hne =>
+    have hlt : k < s.jobs.length := (List.getElem?_eq_some_iff.1 hx).1
+    refine ⟨by simp [setJob], ⟨{ x with phase := .cancelled }, by simp [setJob, hlt], rfl⟩, ?_⟩
+    intro j hj
+    simp [setJob, List.getElem?_set, Ne.symm hj]
+
+theorem cancel_none {s : QState R} {k : Nat} (h : step s (.cancel k) = none) (hk : k < s.jobs.length) :
+    EndedAt s k := by
+  simp only [step] at h
+  have hx : s.jobs[k]? = some s.jobs[k] := by simp [hk]
+  rw [hx] at h
+  simp only at h
+  split at h
+  · rename_i he; exact ⟨_, hx, he⟩
+  · simp at h
+
+theorem cancelAll_spec : ∀ (order : List Nat) (s : QState R),
+    (cancelAll s order).jobs.length = s.jobs.length ∧
+    (∀ j, j < s.jobs.length → (j ∈ order ∨ EndedAt s j) → EndedAt (cancelAll s order) j) ∧
+    (∀ j, EndedAt s j → (cancelAll s order).jobs[j]? = s.jobs[j]?)
+  | [], s => ⟨rfl, fun j _ hj => by simpa [cancelAll] using hj, fun _ _ => rfl⟩
+  | k :: ks, s => by
+    simp only [cancelAll]
+    cases hk : step s (.cancel k) with
+    | none =>
+      obtain ⟨ih1, ih2, ih3⟩ := cancelAll_spec ks s
+      refine ⟨ih1, ?_, ih3⟩
+      intro j hj hor
+      apply ih2 j hj
+      rcases hor with hmem | he
+      · rcases List.mem_cons.1 hmem with rfl | hmem
+        · exact Or.inr (cancel_none hk hj)
+        · exact Or.inl hmem
+      · exact Or.inr he
+    | some s1 =>
+      obtain ⟨hl, hek, hother⟩ := cancel_effect hk
+      obtain ⟨ih1, ih2, ih3⟩ := cancelAll_spec ks s1
+      have hkeep : ∀ j, EndedAt s j → EndedAt s1 j ∧ s1.jobs[j]? = s.jobs[j]? := by
+        intro j ⟨x, hx, he⟩
+        have hjk : j ≠ k := by
+          rintro rfl
+          cases step_spec hk with
+          | cancel _ y hy hne => rw [hx] at hy; cases hy; rw [he] at hne; cases hne
+        exact ⟨⟨x, (hother j hjk) ▸ hx, he⟩, hother j hjk⟩
+      refine ⟨ih1.trans hl, ?_, ?_⟩
+      · intro j hj hor
+        apply ih2 j (hl ▸ hj)
+        rcases hor with hmem | he
+        · rcases List.mem_cons.1 hmem with rfl | hmem
+          · exact Or.inr hek
+          · exact Or.inl hmem
+        · exact Or.inr (hkeep j he).1
+      · intro j he
+        rw [ih3 j (hkeep j he).1, (hkeep j he).2]
+
+theorem reach_cancelAll {s : QState R} (h : Reach q0 pop workers s) :
+    ∀ order, Reach q0 pop workers (cancelAll s order) := by
+  intro order
+  induction order generalizing s with
+  | nil => exact h
+  | cons k ks ih =>
+    simp only [cancelAll]
+    cases hk : step s (.cancel k) with
+    | none => exact ih h
+    | some s1 => exact ih (.step _ h hk)
+
+
+/-- two different jobs hold disjoint resources (the core of `C17_exclusive`) -/
+theorem held_disjoint {s : QState R} (h : Reach q0 pop workers s) (hq : q0.Nodup) {i j : Nat}
+    (hij : i ≠ j) {xi xj : QJob R} (hi : s.jobs[i]? = some xi) (hj : s.jobs[j]? = some xj) :
+    ∀ r, r ∈ held xi.phase → r ∉ held xj.phase := by
+  have hnd := heldAll_nodup h hq
+  intro r hr hr'
+  rcases Nat.lt_or_gt_of_ne hij with hlt | hlt
+  · exact disjoint_of_nodup_flatMap (fun q : QJob R => held q.phase) s.jobs hnd i j xi xj hlt hi hj r hr hr'
+  · exact disjoint_of_nodup_flatMap (fun q : QJob R => held q.phase) s.jobs hnd j i xj xi hlt hj hi r hr' hr
+
+/-- once every job has ended the queue holds exactly the initial resources -/
+theorem queue_perm_of_all_ended {s : QState R} (h : Reach q0 pop workers s)
+    (hall : ∀ x ∈ s.jobs, isEnded x.phase = true) : s.queue.Perm q0 := by
+  have hcons := (reach_inv h).cons
+  have : heldAll s = [] := by
+    simp only [heldAll, List.flatMap_eq_nil_iff]
+    intro x hx
+    have := hall x hx
+    cases hp : x.phase <;> simp [hp, isEnded] at this ⊢ <;> rfl
+  rw [this, List.append_nil] at hcons
+  exact hcons
+
 end DH.Queued
